@@ -71,7 +71,7 @@ class C11RoundTrip(Machine):
     assumptions = ["nothing is demanded about orphan rows or total_thrown after a rejected add, nor about files "
                    "never closed", "component triggers are stored per waveform row: compared only when rows exist",
                    "byte-level faults inside libhdf5 are not injected (no property speaks about them)"]
-    required_counters = ("fault.arg_rejected", "fault.collab_fired", "op.checkpoint", "probe.readback_events")
+    required_counters = ("seam.file_opens", "fault.arg_rejected", "fault.collab_fired", "op.checkpoint", "probe.readback_events")
 
     # ------------------------------------------------------------------
     def draw_config(self, rng):
@@ -301,6 +301,8 @@ class C11RoundTrip(Machine):
         return ["checkpoint", n]
 
     def finish(self):
+        self.count("sim.clock_span_s", int(self.clock.max_t - self.clock.min_t))
+        self.count("seam.file_opens", sum(self.disk.opens.values()))
         st, _ = self.sut(self.writer.close, where="writer.close")
         return ["final", self._readback("final read-back")]
 
